@@ -6,4 +6,4 @@ Require Import ExtrOcamlBasic.
 From Lace Require Import Driver.
 Extraction Language OCaml.
 Set Extraction Optimize.
-Extraction "../ocaml/gen/lace_model.ml" run_c02 run_c03 run_asm.
+Extraction "../ocaml/gen/lace_model.ml" run_c02 run_c03 run_asm run_obj run_lc3 run_src.
